@@ -100,3 +100,11 @@ CHECKS['C15'] = {
     'text': 'Every int32 goes through fromS32 and toS32 (thorough; quick uses +-4096 neighbourhoods of the four corners and +-2^k); all outward conversions and predicates run on ~80k raw representations around every threshold in the code (0, 2^31, p-2^31, (p-1)/2, p, 2^63, 2^64); 500 integers k*p+r with |k| up to 2^65 are converted as strings in every radix 2..36 and as mpz; oracle is GMP with floor modulus.',
     'note': 'int64/uint64 conversions are checked on the alphabet and neighbourhoods, not on all 2^64 values; their code has a single comparison each, whose both sides and boundary are in the set.',
 }
+
+ENGINES.append({'name': 'teamsched', 'path': 'engine/teamsched', 'serves_properties': ['C12'], 'kind_free_text': 'own OpenMP runtime (GOMP_parallel/omp_*), exact per-member access recorder fed by compile-only -fsanitize=thread instrumentation and wrapped mem*/malloc, serial-order and coroutine-based preemption-bounded schedulers; pthread stand-in for a free-running ThreadSanitizer pass'})
+CHECKS['C12'] = {
+    'engine': 'teamsched',
+    'technique': 'exhaustive member orders with per-region access-set conflict check (partial-order reduction) + preemption-bounded (<=2, thorough <=3) exhaustive interleaving exploration per region under a controlled scheduler + free-running ThreadSanitizer',
+    'text': 'The library objects are linked against an own OpenMP runtime that decides which team member runs. Every scenario (transforms, extension, Merkle builders incl. batched and AVX-512, parcpy/parSetZero) is executed for every team size and every member order with exact per-member read/write sets: no two members may conflict in any region and the output must be bit-identical to the single-member run. On the small scenarios every interleaving with at most two preemptions at element granularity is explored region by region, with the end-of-region memory state compared to the default schedule. The same bodies run with real threads under ThreadSanitizer.',
+    'note': 'Sequential consistency assumed; instrumented accesses are what gcc -fsanitize=thread emits with mem* builtins disabled plus wrapped mem* calls. The first region of NTT_iters runs with the process-wide default team (omp_set_num_threads is called after it), which the runtime models.',
+}
